@@ -38,7 +38,7 @@ def _corpus_text():
     return text, exp
 
 
-def run_persist(ctx, cases, seed_offset=0, tag='persist', with_model=True):
+def run_persist(ctx, cases, seed_offset=0, tag='persist', with_model=True, gen_args=()):
     t = Tie('persist' if tag == 'persist' else 'persist-' + tag)
     t.rule = ('generated core-profile programs x histories with 1-2 `snapshot` ops (`vh persist gen`, SplitMix64 from VERIF_SEED); distinct = '
               'distinct (program, history, snapshot positions) hashes; non-trivial = after a restore the implementation executed or '
@@ -46,12 +46,12 @@ def run_persist(ctx, cases, seed_offset=0, tag='persist', with_model=True):
     binp = ctx.cargo_bin('persist', features='persistence', cfg='persist')
     ops = os.path.join(ctx.work, '%s.ops' % tag)
     imp = os.path.join(ctx.work, '%s.impl' % tag)
-    rc, out, _ = sh([binp, 'gen', '--seed', str(ctx.seed + seed_offset), '--cases', str(cases), '--out', ops])
+    rc, out, _ = sh([binp, 'gen', '--seed', str(ctx.seed + seed_offset), '--cases', str(cases), '--out', ops] + list(gen_args))
     m = re.search(r'GEN cases=(\d+) distinct=(\d+)', out)
     if rc != 0 or not m:
         raise HarnessError('persist gen failed: ' + out[-500:])
     distinct = int(m.group(2))
-    ctext, cexp = _corpus_text()
+    ctext, cexp = _corpus_text() if not gen_args else ('', '')
     ncorpus_lines = ctext.count('\n')
     if ctext:
         with open(ops) as f:
@@ -112,14 +112,18 @@ def run_persist(ctx, cases, seed_offset=0, tag='persist', with_model=True):
 
 def ties(ctx):
     n = 8000 if ctx.tier == 'quick' else 100000
-    return [run_persist(ctx, n)]
+    # second family: UNTRACKED reads (`u0` leaves = report_untracked_read + a cell outside salsa) in persisted and
+    # non-persisted functions, cell changes followed by a new revision; outside the Lean `Persist` model, decided by
+    # the oracle (reference interpreter + restore monitor) only
+    return [run_persist(ctx, n), run_persist(ctx, n // 2, seed_offset=3, tag='cells', with_model=False, gen_args=['--cells'])]
 
 
 def search(ctx, reason):
-    t = run_persist(ctx, 100000, seed_offset=77, tag='search', with_model=False)
-    for f in t.failures:
-        if f.kind == 'oracle' and f.key not in listed_keys():
-            return f
+    for t in (run_persist(ctx, 100000, seed_offset=77, tag='search', with_model=False),
+              run_persist(ctx, 50000, seed_offset=78, tag='search-cells', with_model=False, gen_args=['--cells'])):
+        for f in t.failures:
+            if f.kind == 'oracle' and f.key not in listed_keys():
+                return f
     return None
 
 
